@@ -266,7 +266,8 @@ Call ==
                 ram0 |-> IF ev.op = "alloc" THEN ram ELSE NoRam,
                 pre_alloced |-> {}]
      IN
-     /\ calls' = calls \cup {c}
+     \* (a call that overlaps another one does not see a file in sync any more)
+     /\ calls' = { [x EXCEPT !.clean = FALSE] : x \in calls } \cup {c}
      /\ IF ev.op = "flush" THEN
           \* candidate sync point: the blocks no call in flight may still change
           LET busy == UNION { x.todo : x \in calls } IN
